@@ -131,8 +131,9 @@ impl<T: 'static + RadixType> Sort for Vec<T> {
                     prev += temp;
                 });
                 prev = 0;
-                for i in (128..256).rev() {
-                    // build prefix sums for negative numbers from the right
+                for i in 128..256 {
+                    // negative numbers come first; in two's complement their most
+                    // significant byte grows with the value, so buckets ascend
                     unsafe {
                         skip_table[k] = skip_table[k]
                             || *histogram_table.get_unchecked_mut(k).get_unchecked_mut(i)
